@@ -460,6 +460,12 @@ pub fn record(args: &[String]) {
                     }
                 }
             }
+            // C03 on real repositories: a clean checkout exactly at a final-release tag yields exactly that release
+            if rng.gen_bool(0.4) {
+                if let (Some(sv), Some(pep)) = (flow_out(&repo, "semver"), flow_out(&repo, "pep440")) {
+                    events.push(json!({"k": "flowclean", "sv": to_cps(&sv), "pep": to_cps(&pep)}));
+                }
+            }
             // the default output of `zerv version` / `zerv flow` from the git source (C01)
             {
                 let dir = repo.dir.to_string_lossy().to_string();
